@@ -72,7 +72,7 @@ def tree_hash(paths, extra=""):
             files = []
             for d, _, fs in os.walk(root):
                 for f in fs:
-                    if f.endswith((".c", ".h", ".cpp", ".in")):
+                    if f.endswith((".c", ".h", ".cpp", ".in", ".ml", ".mli")):
                         files.append(os.path.join(d, f))
         for f in sorted(files):
             h.update(f.encode())
@@ -92,10 +92,9 @@ def build_clib():
     with Lock("clib"):
         if os.path.exists(lib):
             return out
-        # remove stale builds
-        for d in glob.glob(os.path.join(BUILD, "clib-*")):
-            shutil.rmtree(d, ignore_errors=True)
-        for d in glob.glob(os.path.join(BUILD, "drv-*")):
+        # remove stale builds (keep the 2 most recent: a scratch repo may be checked in parallel)
+        old = sorted(glob.glob(os.path.join(BUILD, "clib-*")), key=os.path.getmtime, reverse=True)
+        for d in old[2:]:
             shutil.rmtree(d, ignore_errors=True)
         tmp = out + ".tmp"
         shutil.rmtree(tmp, ignore_errors=True)
@@ -142,7 +141,8 @@ def build_cdriver(name, clib):
     with Lock("drv-" + name):
         if os.path.exists(exe):
             return exe
-        for d in glob.glob(os.path.join(BUILD, "drv-" + name + "-*")):
+        old = sorted(glob.glob(os.path.join(BUILD, "drv-" + name + "-*")), key=os.path.getmtime, reverse=True)
+        for d in old[2:]:
             shutil.rmtree(d, ignore_errors=True)
         os.makedirs(outd)
         cmd = ["gcc"] + CFLAGS + ["-I" + os.path.join(REPO, "include"), "-I" + os.path.join(REPO, "src"),
@@ -220,9 +220,38 @@ def coq_files():
     return sorted(os.path.basename(f) for f in glob.glob(os.path.join(COQ, "*.v")))
 
 
+def gen_extract():
+    """coq/Extract.v is generated from the fragments coq/extract.d/*.txt (first line 'Require: M1 M2', then names)."""
+    mods, names = [], []
+    for f in sorted(glob.glob(os.path.join(COQ, "extract.d", "*.txt"))):
+        for line in open(f):
+            line = line.strip()
+            if not line or line.startswith("#"):
+                continue
+            if line.startswith("Require:"):
+                for m in line[len("Require:"):].split():
+                    if m not in mods:
+                        mods.append(m)
+            else:
+                for n in line.split():
+                    if n not in names:
+                        names.append(n)
+    txt = ("(* GENERATED by lib/vlib.py from coq/extract.d/*.txt - do not edit.\n"
+           "   ExtrOcamlBasic only (bool, option, unit, list, prod, sumbool -> OCaml's); Z/positive/N/nat stay the\n"
+           "   extracted inductive types; no Extract Constant / Extract Inductive of our own. *)\n"
+           "From Coq Require Import ZArith List Extraction ExtrOcamlBasic.\n"
+           "From LP Require Import %s.\n"
+           "Set Warnings \"-extraction-opaque-accessed\".\n"
+           "Extraction \"model.ml\"\n  %s.\n" % (" ".join(mods), "\n  ".join(names)))
+    pf = os.path.join(COQ, "Extract.v")
+    if not os.path.exists(pf) or open(pf).read() != txt:
+        open(pf, "w").write(txt)
+
+
 def build_coq(targets=None, clean=False):
     """Full .vo build (never -vos).  Returns (ok, log)."""
     with Lock("coq"):
+        gen_extract()
         if clean:
             sh(["make", "-f", "Makefile.coq", "clean"], cwd=COQ)
             for f in glob.glob(os.path.join(COQ, "*.assum")):
@@ -247,8 +276,17 @@ def coq_assumptions(prop):
     f = "Properties_%s.v" % prop
     if not os.path.exists(os.path.join(COQ, f)):
         return None
+    cache = os.path.join(COQ, "Properties_%s.assum" % prop)
+    vo = os.path.join(COQ, "Properties_%s.vo" % prop)
     with Lock("coq"):
-        rc, o = sh(["timeout", "900", "coqc", "-Q", ".", "LP", f], cwd=COQ)
+        # the output of coqc on this file (its Print Assumptions lines) is cached against the .vo that make produced
+        if (os.path.exists(cache) and os.path.exists(vo) and os.path.getmtime(cache) >= os.path.getmtime(vo)
+                and os.path.getmtime(vo) >= os.path.getmtime(os.path.join(COQ, f))):
+            rc, o = 0, open(cache).read()
+        else:
+            rc, o = sh(["timeout", "1800", "coqc", "-Q", ".", "LP", f], cwd=COQ)
+            if rc == 0:
+                open(cache, "w").write(o)
     src = strip_comments(open(os.path.join(COQ, f)).read())
     theorems = re.findall(r"^\s*Theorem\s+(\w+)", src, re.M)
     printed = re.findall(r"Print\s+Assumptions\s+(\w+)", src)
@@ -268,6 +306,33 @@ def coq_assumptions(prop):
 
 # --------------------------------------------------------------------------- OCaml side
 
+MDRIVER_ML = """(* GENERATED: model driver.  `mdriver <prop>` reads cases on stdin (one per line), prints one result
+   line each.  A case carries the implementation's output after " => " (for checker-style operations). *)
+let () =
+  let prop = if Array.length Sys.argv > 1 then Sys.argv.(1) else "" in
+  let run =
+    match prop with
+%s
+    | _ -> (fun _ _ -> "UNKNOWN-PROPERTY")
+  in
+  (try
+    while true do
+      let line = input_line stdin in
+      let all = Io.split_ws line in
+      let rec cut acc = function
+        | [] -> (List.rev acc, [])
+        | "=>" :: rest -> (List.rev acc, rest)
+        | t :: rest -> cut (t :: acc) rest in
+      let (toks, cout) = cut [] all in
+      let out = try run toks cout with
+        | Stack_overflow -> "MODEL-ERROR stack overflow"
+        | e -> "MODEL-ERROR " ^ Printexc.to_string e in
+      print_string out; print_newline ()
+    done
+  with End_of_file -> ())
+"""
+
+
 def build_mdriver():
     """Extract the model (coq/Extract.v -> build/ml/model.ml) and build ocaml/mdriver.ml."""
     mld = os.path.join(BUILD, "ml")
@@ -278,11 +343,16 @@ def build_mdriver():
         deps = srcs + [model_src, os.path.join(COQ, "model.mli")]
         if not os.path.exists(model_src):
             raise BuildError("extraction did not produce model.ml")
-        if os.path.exists(exe) and all(os.path.getmtime(exe) >= os.path.getmtime(d) for d in deps):
+        stamp = os.path.join(mld, "stamp")
+        sig = tree_hash(deps)
+        if os.path.exists(exe) and os.path.exists(stamp) and open(stamp).read() == sig:
             return exe
         os.makedirs(mld, exist_ok=True)
         for d in deps:
             shutil.copy(d, mld)
+        props = sorted(os.path.basename(s)[2:-3] for s in srcs if os.path.basename(s).startswith("p_"))
+        with open(os.path.join(mld, "mdriver.ml"), "w") as f:
+            f.write(MDRIVER_ML % "\n".join('    | "%s" -> P_%s.run' % (p.upper(), p) for p in props))
         order = ["model.mli", "model.ml", "io.ml"] + \
                 sorted(os.path.basename(s) for s in srcs if os.path.basename(s) not in ("io.ml", "mdriver.ml")) + \
                 ["mdriver.ml"]
@@ -292,6 +362,7 @@ def build_mdriver():
             log(o[-4000:])
             raise BuildError("OCaml model driver does not build")
         os.rename(os.path.join(mld, "mdriver.tmp"), exe)
+        open(stamp, "w").write(sig)
     return exe
 
 
